@@ -57,6 +57,19 @@ void rf_column(ref_arena* a, const rfile_t* f, int ci, int rg, ref_coldata* o) {
         o->nvalues++;
     }
 }
+/* logical-type annotations per physical type: INT32 date, time(ms,utc), int(8,signed), decimal(9,2), int(16,unsigned), int(32,unsigned); INT64 timestamp(ms,utc), timestamp(us), timestamp(ns,utc), time(us), time(ns,utc), int(64,signed);
+ * BYTE_ARRAY string, json, enum, bson; FLBA decimal(precision by width) */
+static void rf_logical(int ptype, int k, ref_schema_elem* e) {
+    if (k <= 0) return; ref_logical* l = &e->logical; memset(l, 0, sizeof *l);
+    switch (ptype) {
+    case PT_INT32: switch ((k - 1) % 6) { case 0: l->id = 6; break; case 1: l->id = 7; l->unit = 1; l->utc = true; break; case 2: l->id = 10; l->bit_width = 8; l->is_signed = true; break; case 3: l->id = 5; l->precision = 9; l->scale = 2; break; case 4: l->id = 10; l->bit_width = 16; break; default: l->id = 10; l->bit_width = 32; break; } break;
+    case PT_INT64: switch ((k - 1) % 6) { case 0: l->id = 8; l->unit = 1; l->utc = true; break; case 1: l->id = 8; l->unit = 2; break; case 2: l->id = 8; l->unit = 3; l->utc = true; break; case 3: l->id = 7; l->unit = 2; break; case 4: l->id = 7; l->unit = 3; l->utc = true; break; default: l->id = 10; l->bit_width = 64; l->is_signed = true; break; } break;
+    case PT_BYTE_ARRAY: { static const int ID[] = { 1, 12, 4, 13 }; l->id = ID[(k - 1) % 4]; break; }
+    case PT_FLBA: l->id = 5; l->precision = e->type_length >= 4 ? 9 : 2; l->scale = 0; break;
+    default: return;
+    }
+    e->has_logical = true;
+}
 int rf_build(ref_arena* a, const rfile_t* f, ref_buf* img, ref_pageinfo* pages, int maxpages, int* npages, ref_coldata* cols) {
     int nrg = f->nrg > 0 ? f->nrg : f->nrg < 0 ? 0 : 1;
     ref_schema_elem* sc = ref_alloc(a, sizeof(ref_schema_elem) * (size_t)(f->ncols * 4 + 1)); int ns = 1;
@@ -71,13 +84,14 @@ int rf_build(ref_arena* a, const rfile_t* f, ref_buf* img, ref_pageinfo* pages, 
         }
         ref_schema_elem* e = &sc[ns++]; const char* nm = f->col[c].name ? f->col[c].name : DN[c]; e->name = (ref_bin){ (const uint8_t*)nm, (int32_t)strlen(nm), true };
         e->has_type = true; e->type = f->col[c].ptype; e->has_rep = true; e->rep = leafrep; if (f->col[c].ptype == PT_FLBA) { e->has_type_length = true; e->type_length = f->col[c].tlen; }
+        rf_logical(f->col[c].ptype, f->logical[c], e);
     }
     ref_chunk_layout* L = ref_alloc(a, sizeof(ref_chunk_layout) * (size_t)(nrg * f->ncols)); int64_t* rows = ref_alloc(a, sizeof(int64_t) * (size_t)nrg);
     for (int g = 0; g < nrg; g++) { rows[g] = f->N;
         for (int c = 0; c < f->ncols; c++) { rf_column(a, f, c, g, &cols[g * f->ncols + c]); ref_chunk_layout* l = &L[g * f->ncols + c];
             l->codec = f->codec; l->value_encoding = f->enc[c]; l->npages = f->npages[c]; memcpy(l->page_levels, f->page_levels[c], sizeof l->page_levels); l->uniform_page_levels = f->uniform_page[c]; l->level_form = f->level_form; l->index_form = f->index_form; l->index_bw_extra = f->index_bw_extra;
             if (c == 0) { int64_t r0 = 0; for (int64_t i = 0; i < cols[g * f->ncols].nlevels; i++) if (cols[g * f->ncols].max_rep == 0 || cols[g * f->ncols].rep[i] == 0) r0++; rows[g] = r0; }
-            l->chunk_stats = f->chunk_stats[c]; l->page_stats = f->page_stats[c]; l->crc = f->crc; l->dict_offset_present = f->dict_offset_present; l->data_offset_at_dict = f->data_offset_at_dict; l->v2 = f->v2; l->level_encoding = f->level_encoding; } }
+            l->chunk_stats = f->chunk_stats[c]; l->page_stats = f->page_stats[c]; l->crc = f->crc; l->dict_offset_present = f->dict_offset_present; l->data_offset_at_dict = f->data_offset_at_dict; l->v2 = f->v2; l->level_encoding = f->level_encoding; l->absent_levels_bit_packed = f->absent_levels_bit_packed; } }
     ref_write_req rq; memset(&rq, 0, sizeof rq); rq.schema = sc; rq.nschema = ns; rq.nleaves = f->ncols; rq.nrg = nrg; rq.rg_rows = rows; rq.cols = cols; rq.layouts = L; rq.fl = f->fl;
     return ref_pq_write(a, &rq, img, pages, maxpages, npages);
 }
@@ -89,7 +103,7 @@ const char* rf_desc(const rfile_t* f) {
         if (f->defs[c]) { k += snprintf(o + k, 600 - (size_t)k, "/L"); for (int r = 0; r < f->N && k < 560; r++) k += snprintf(o + k, 600 - (size_t)k, "%d.%d,", f->reps[c] ? f->reps[c][r] : 0, f->defs[c][r]); }
         k += snprintf(o + k, 600 - (size_t)k, "/p");
         if (f->uniform_page[c]) k += snprintf(o + k, 600 - (size_t)k, "every%d", f->uniform_page[c]); else if (!f->npages[c]) k += snprintf(o + k, 600 - (size_t)k, "1"); for (int p = 0; p < f->npages[c] && !f->uniform_page[c]; p++) k += snprintf(o + k, 600 - (size_t)k, "%s%d", p ? "+" : "", f->page_levels[c][p]); }
-    snprintf(o + k, 600 - (size_t)k, ";n=%d;rg=%d;codec=%d;crc=%d;lf=%d;if=%d;bwx=%d;pat=%d;dofs=%d%d;v2=%d;lenc=%d;tf=%d%d;unk=%d%s", f->N, f->nrg > 0 ? f->nrg : f->nrg < 0 ? 0 : 1, f->codec, f->crc, f->level_form, f->index_form, f->index_bw_extra, f->pattern,
-             f->dict_offset_present, f->data_offset_at_dict, f->v2, f->level_encoding, f->fl.tform.long_field_headers, f->fl.tform.long_list_headers, f->fl.unknown_kind, f->fl.unknown_at_end ? "e" : "");
+    snprintf(o + k, 600 - (size_t)k, ";n=%d;rg=%d;codec=%d;crc=%d;lf=%d;if=%d;bwx=%d;pat=%d;dofs=%d%d;v2=%d;lenc=%d%s;tf=%d%d;unk=%d%s", f->N, f->nrg > 0 ? f->nrg : f->nrg < 0 ? 0 : 1, f->codec, f->crc, f->level_form, f->index_form, f->index_bw_extra, f->pattern,
+             f->dict_offset_present, f->data_offset_at_dict, f->v2, f->level_encoding, f->absent_levels_bit_packed ? "+absent-bp" : "", f->fl.tform.long_field_headers, f->fl.tform.long_list_headers, f->fl.unknown_kind, f->fl.unknown_at_end ? "e" : "");
     return o;
 }
